@@ -18,6 +18,7 @@ import json
 import os
 import random
 import threading
+import time
 import warnings
 from concurrent.futures import ProcessPoolExecutor, ThreadPoolExecutor
 from datetime import datetime
@@ -32,6 +33,10 @@ SORT_FN = {"fcfs": "first_come_first_served", "lcfs": "last_come_first_served",
            "lrpt": "largest_remaining_processing_time"}
 WORKERS = int(os.environ.get("VERIF_WORKERS", "4"))                    # quick tier and development
 WORKERS_T = int(os.environ.get("VERIF_WORKERS_THOROUGH", "8"))         # thorough tier
+# every TLC process gets a bounded heap (the JVM default of a quarter of the RAM per process is not
+# affordable when a dozen single-worker processes run side by side)
+JVM_SMALL = {"JAVA_TOOL_OPTIONS": "-Xmx2g"}
+JVM_MC = {"JAVA_TOOL_OPTIONS": "-Xmx6g"}
 C07_PREDICATES = ("OutputFeasible", "LevelsAllowed", "WithinDemand", "WithinEstimatorOrMin", "ZeroForInactive")
 
 
@@ -286,7 +291,7 @@ def validate_lines(lines, procs=WORKERS, rep=None, what="trace validation"):
                 ln = dict(ln)
                 ln["opt"] = dict(ln["opt"], tid=j + 1)
                 txt.append(json.dumps(ln))
-            res = run_tlc("SortedAlgoTrace", "SortedAlgo_trace", workers=1, tags=("TRC",), timeout=3000,
+            res = run_tlc("SortedAlgoTrace", "SortedAlgo_trace", workers=1, tags=("TRC",), timeout=3000, env_extra=JVM_SMALL,
                           extra_files={"SortedAlgo_trace.ndjson": "\n".join(txt) + "\n"})
             require_ok(res, what)
             with lock:
@@ -349,7 +354,7 @@ def generate(cfg, parts, rep, what, par=WORKERS):
     lock = threading.Lock()
 
     def one(ov):
-        res = run_tlc("MC_SortedAlgo", cfg, workers=1, overrides=ov, timeout=3000)
+        res = run_tlc("MC_SortedAlgo", cfg, workers=1, overrides=ov, timeout=3000, env_extra=JVM_SMALL)
         require_ok(res, what)
         with lock:
             stats.append(res)
@@ -682,6 +687,13 @@ def settle_closed_loop(lines, owner, verdicts, rep):
 MC_ACTIONS = ["Preprocess", "MinRate", "Sort", "ServeGreedy", "RRStep", "Uncontrolled", "Finish"]
 
 
+def _phase(rep, name):
+    now = time.time()
+    ph = rep.bounds.setdefault("phase_seconds", {})
+    ph[name] = round(now - getattr(rep, "_t_phase", rep.t0), 1)
+    rep._t_phase = now
+
+
 def _lattice(rep, prop, q, par):
     """Model checking + generation for one property and tier. Returns the case groups."""
     tag = prop[1:]
@@ -700,9 +712,10 @@ def _lattice(rep, prop, q, par):
             "C08": "exhaustive model checking of QueueSorted, ServedInOrder, GreedyMaximal (independent definition), "
                    "RRStopsOnlyWhenBlocked, RROneLevelAtATime, UncontrolledExact"}[prop]
     for ov, name in mcs:
-        mc = run_tlc("MC_SortedAlgo", "SortedAlgo_mc" + tag, workers=par, coverage=True, overrides=ov, timeout=3000)
+        mc = run_tlc("MC_SortedAlgo", "SortedAlgo_mc" + tag, workers=par, coverage=True, overrides=ov, timeout=3000, env_extra=JVM_MC)
         rep.add_tlc(mc, what + " (" + name + ")", "SortedAlgo_mc" + tag, require_actions=MC_ACTIONS)
         require_ok(mc, "SortedAlgo %s model checking" % prop)
+    _phase(rep, "model checking")
     return generate("SortedAlgo_gen", gens, rep, "generation: every case of the lattice emitted by TLC", par=par)
 
 
@@ -725,12 +738,16 @@ def check_C07(tier, seed):
     q = tier == "quick"
     par = WORKERS if q else WORKERS_T
     groups = _lattice(rep, "C07", q, par)
+    _phase(rep, "generation")
     require_classes(groups, dict(CLASSES, **CLASSES_EST), rep)
     lines, meta = replay_lattice(groups, rep, "C07", par)
+    _phase(rep, "replay through the real classes")
     sim_lines, owner = closed_loop(rep, 40 if q else 1000, seed, par)
+    _phase(rep, "closed-loop simulations")
     tests = selftest_lines(groups)
     verdicts = validate_lines(lines + sim_lines + [t[0] for t in tests], procs=par, rep=rep,
                               what="observed schedules (lattice cases, then closed-loop invocations) re-executed and judged by the specification")
+    _phase(rep, "trace validation")
     check_selftest(tests, verdicts, len(lines) + len(sim_lines))
     settle_lattice(lines, meta, verdicts, rep, "C07", ())
     st = settle_closed_loop(sim_lines, owner, {k: verdicts[len(lines) + k] for k in range(len(sim_lines))}, rep)
@@ -760,11 +777,14 @@ def check_C08(tier, seed):
     q = tier == "quick"
     par = WORKERS if q else WORKERS_T
     groups = _lattice(rep, "C08", q, par)
+    _phase(rep, "generation")
     require_classes(groups, {k: f for k, f in CLASSES.items() if "session" not in k}, rep)
     lines, meta = replay_lattice(groups, rep, "C08", par)
+    _phase(rep, "replay through the real classes")
     tests = selftest_lines(groups)
     verdicts = validate_lines(lines + [t[0] for t in tests], procs=par, rep=rep,
                               what="observed schedules re-executed and judged by the specification")
+    _phase(rep, "trace validation")
     check_selftest(tests, verdicts, len(lines))
     settle_lattice(lines, meta, verdicts, rep, "C08", ("rr:transcript", "greedy:order", "greedy:eps", "unc:stations"))
     rep.exhaustive = True
